@@ -69,7 +69,7 @@ Qed.
 Lemma on_event_reach : forall cfg dis fuel st e st',
   on_event cfg dis fuel st e = Some st' -> reach cfg st st'.
 Proof.
-  intros cfg dis fuel st e st' H. destruct e as [r p rs|r b c ok|r b lat res|src r b c lat res vd cm au| |k]; cbn [on_event] in H.
+  intros cfg dis fuel st e st' H. destruct e as [r p rs|r b c ok|r b lat res|src r b c lat res vd cm au| |l|k]; cbn [on_event] in H.
   - unfold bind in H.
     destruct (ensure cfg r fuel st) as [s1|] eqn:E1; [|discriminate].
     destruct (settle cfg dis r s1) as [s1'|] eqn:E1'; [|discriminate].
@@ -101,6 +101,7 @@ Proof.
         eapply reach_trans; [eapply to_backlog_reach; eauto | eapply obs_step_reach; eauto].
     + destruct (res =? 0); [eapply obs_step_reach; eauto | inversion H; subst; apply reach_refl].
   - eapply reach_step; eauto.
+  - discriminate.
   - inversion H; subst; apply reach_refl.
 Qed.
 
